@@ -21,9 +21,7 @@ for c in conflicts:
         print('UNRESOLVED CONFLICT:', c)
 # union of findings; property-scoped ids for ids beyond F24
 def norm(e):
-    m = re.fullmatch(r'F(\d+)([a-z]?)', e['id'])
-    if m and int(m.group(1)) > 24:
-        e['id'] = f"{e['property']}-{e['id']}"
+    # ids are scoped by property: (property, id) is the key; builders numbered independently
     return e
 seen, out = set(), []
 for e in [norm(x) for x in ours] + [norm(x) for x in theirs]:
